@@ -949,6 +949,67 @@ theorem C04_pricing_op_never_lowers_rates_any_state (s : Sys) (m : Msg) (hop : P
     subst e1; subst e2
     exact ⟨Or.inr (Nat.le_refl _), Or.inr (Nat.le_refl _)⟩
 
+/-! ### Index updates arriving while a slash is still unrecognised
+
+  UpdateGlobalIndex, the dispatcher's DispatchRewards, BondRewards — and every still message — as
+  the top-level message, from any state (`Lemmas/RatePending`, second pending mode `PInvB`): until
+  BondRewards runs, nothing that prices moves; if it never runs (no stSei-side rewards) the State
+  query answers afterwards exactly what it answered before; if it runs it recognises the slash,
+  prices with the pools the query had already reported, and only adds to the stSei pool. -/
+
+theorem C04_index_update_never_lowers_rates_any_state (s : Sys) (m : Msg) (hop : PendQ m = true)
+    (c : ChainOK s)
+    (btok : s.hub.bsei = some bseiA) (stok : s.hub.stsei = some stseiA)
+    (bwf : s.bsei.WF) (swf : s.stsei.WF) (bhub : s.bsei.hub = hubA) (shub : s.stsei.hub = hubA)
+    (hd : s.delegationsOf hubA ≠ []) (hz : s.hub.bBond + s.hub.sBond ≠ 0)
+    (st0 : HubSt) (hst0 : s.hub.actualState s.hubEnv = .ok st0)
+    (hz0 : st0.bBond + st0.sBond ≠ 0)
+    (backB : Backed st0.bBond s.bsei.supply s.hub.reqB) (backS : Backed st0.sBond s.stsei.supply s.hub.reqS)
+    (rb' rs' : Nat) (h1 : reportedRates (s.exec m).1 = .ok (rb', rs')) :
+    reportedRates s = .ok (st0.bRate, st0.sRate) ∧
+    ((s.exec m).1.bsei.supply + (s.exec m).1.hub.reqB = 0 ∨ st0.bRate ≤ rb') ∧
+    ((s.exec m).1.stsei.supply + (s.exec m).1.hub.reqS = 0 ∨ st0.sRate ≤ rs') := by
+  have h0 : reportedRates s = .ok (st0.bRate, st0.sRate) := by unfold reportedRates; rw [hst0]
+  refine ⟨h0, ?_⟩
+  unfold Sys.exec at h1 ⊢
+  split at h1
+  · rename_i s' hrun
+    simp only [] at h1 ⊢
+    have inv : PInvB s s [m] :=
+      ⟨c, SamePools.refl s, btok, stok, bwf, swf, bhub, shub, fun x hx => by
+        simp only [List.mem_singleton] at hx; subst hx; exact hop⟩
+    rcases pending_runB s st0 hst0 btok stok hd hz hz0 backB backS 400 s _ s' inv hrun with sp | key
+    · -- the slash is still pending and nothing that prices has moved
+      have := reportedRates_of_samePools s s' sp
+      rw [this, h0] at h1
+      injection h1 with h1; injection h1 with e1 e2
+      subst e1; subst e2
+      exact ⟨Or.inr (Nat.le_refl _), Or.inr (Nat.le_refl _)⟩
+    · obtain ⟨k4, k5, k3, k6, k7, k8⟩ := key
+      have concl := reported_conclusion st0 s' ⟨k4, k5, k3, k6, k7, k8⟩
+      have r1 := reportedRates_noslash s' k8 k3 k6 k7 rb' rs' h1
+      by_cases hzz : s'.hub.bBond + s'.hub.sBond = 0
+      · have hB : s'.hub.bBond = 0 := by omega
+        have hS : s'.hub.sBond = 0 := by omega
+        rw [hB] at k4; rw [hS] at k5
+        simp only [Nat.zero_mul, Nat.le_zero_eq, Nat.mul_eq_zero] at k4 k5
+        constructor
+        · rcases k4 with h | h
+          · right; rw [h]; exact Nat.zero_le _
+          · left; exact h
+        · rcases k5 with h | h
+          · right; rw [h]; exact Nat.zero_le _
+          · left; exact h
+      · have e := r1.1 hzz
+        rw [e.1, e.2]
+        exact ⟨concl.1, concl.2.1⟩
+  · rename_i e hrun
+    simp only [] at h1 ⊢
+    rw [h0] at h1
+    injection h1 with h1; injection h1 with e1 e2
+    subst e1; subst e2
+    exact ⟨Or.inr (Nat.le_refl _), Or.inr (Nat.le_refl _)⟩
+
 /-! ### CheckSlashing, slash pending or not
 
   The State query already reports the pools as the chain's delegations define them. CheckSlashing
